@@ -9,6 +9,7 @@ import (
 	"strings"
 	"sync"
 	"sync/atomic"
+	"syscall"
 	"testing"
 	"time"
 
@@ -655,6 +656,16 @@ func TestC12InitFailure(t *testing.T) {
 			switch k {
 			case "custom":
 				p := sim.NewPipe()
+				// the transport's Close may report an error although it did close (EINTR from close(2), a final flush
+				// that failed): it has been closed, once
+				switch rapid.IntRange(0, 3).Draw(t, "close_reports") {
+				case 1:
+					p.FailCloseOnce(syscall.EINTR)
+				case 2:
+					p.FailCloseOnce(&os.PathError{Op: "close", Path: "/dev/ttyS9", Err: syscall.EINTR})
+				case 3:
+					p.FailCloseOnce(errors.New("final flush failed"))
+				}
 				pipes = append(pipes, p)
 				endpoints = append(endpoints, gomavlib.EndpointCustom{ReadWriteCloser: p})
 			case "tcps":
